@@ -2,6 +2,7 @@ package types
 
 import (
 	"encoding/json"
+	"fmt"
 
 	"github.com/cosmos/cosmos-sdk/codec"
 	sdk "github.com/cosmos/cosmos-sdk/types"
@@ -10,7 +11,37 @@ import (
 // Validate performs basic validation of supply genesis data returning an
 // error for any failed validation criteria.
 func (gs GenesisState) Validate() error {
-	// TODO Add custom validation logic
+	if err := gs.Params.ValidateBasic(); err != nil {
+		return err
+	}
+
+	seenBalances := make(map[string]bool, len(gs.Balances))
+	totalBalance := sdk.Coins{}
+
+	for _, balance := range gs.Balances {
+		if err := balance.Validate(); err != nil {
+			return err
+		}
+
+		// an address has more than one valid spelling: compare what it decodes to
+		holder := balance.GetAddress().String()
+		if seenBalances[holder] {
+			return fmt.Errorf("duplicate balance for address %s", balance.Address)
+		}
+
+		seenBalances[holder] = true
+		totalBalance = totalBalance.Add(balance.Coins...)
+	}
+
+	if !gs.TotalBalance.Empty() {
+		if err := gs.TotalBalance.Validate(); err != nil {
+			return fmt.Errorf("invalid total balance: %w", err)
+		}
+
+		if !gs.TotalBalance.IsEqual(totalBalance) {
+			return fmt.Errorf("genesis total balance is incorrect, expected %v, got %v", gs.TotalBalance, totalBalance)
+		}
+	}
 
 	return nil
 }
